@@ -129,6 +129,7 @@ type worker struct {
 	gb        *gateMapBroker
 	runners   sync.Map
 	liveLimit int
+	ticks     int // position ticks run so far on this node (each one moves the node's clock further ahead)
 }
 
 func (w *worker) runner(ch string) *runner {
@@ -778,6 +779,21 @@ func (r *runner) subscribeReq() *protocol.SubscribeRequest {
 	return req
 }
 
+// positionTick runs the connection's periodic tick now (position check due) and waits for an unsubscribe push.
+func (r *runner) positionTick(wait time.Duration) bool {
+	before := len(r.conn.T.Replies())
+	r.w.ticks++
+	centrifuge.VerifMapSubPositionTick(r.conn.Client, time.Duration(r.w.ticks)*3*time.Hour)
+	return r.conn.T.WaitFor(wait, func(rs []*protocol.Reply, closed bool) bool {
+		for i, rep := range rs {
+			if i >= before && rep.Push != nil && rep.Push.Channel == r.ch && rep.Push.Unsubscribe != nil {
+				return true
+			}
+		}
+		return closed
+	})
+}
+
 // sendSync issues one subscribe command of the reference client with nothing parked and waits for its answer.
 func (r *runner) sendSync(req *protocol.SubscribeRequest) bool {
 	id := r.conn.NextID()
@@ -889,6 +905,14 @@ func (r *runner) freeRun(maxResub int) ([]verdict, string) {
 		time.Sleep(5 * time.Millisecond) // an insufficient-state end runs on its own goroutine
 		_, vs := r.settle()
 		all = append(all, vs...)
+		if r.mode != "eph" && r.rc.ph == "live" {
+			// the periodic position check ends a subscription whose position is not the stream's
+			if top, ep := r.brokerPos(); top != r.rc.off || ep != r.rc.epStr {
+				r.positionTick(500 * time.Millisecond)
+				_, vs := r.settle()
+				all = append(all, vs...)
+			}
+		}
 		if !(r.rc.ph == "told" && r.resubs < maxResub) {
 			break
 		}
@@ -902,7 +926,7 @@ func (r *runner) freeRun(maxResub int) ([]verdict, string) {
 	if r.mode != "eph" {
 		top, ep := r.brokerPos()
 		if top != r.rc.off || ep != r.rc.epStr {
-			return nil, "" // the periodic position check ends such a subscription
+			return nil, "position differs from the stream's and the position check did not end the subscription"
 		}
 	}
 	bs, err := r.brokerState()
@@ -1163,6 +1187,10 @@ func (w *worker) run(bi int, beh []map[string]any, res *vh.Result, maxResub int)
 				conn.T.WaitFor(2*time.Second, func(_ []*protocol.Reply, closed bool) bool { return closed })
 			}
 			nontrivial = true
+		case "PosCheck":
+			if !r.positionTick(2 * time.Second) {
+				diverged("the position check did not end the subscription (no unsubscribe push)")
+			}
 		case "Snapshot":
 			// a client that was subscribed earlier and is exactly up to date: its map and position are the broker's
 			bs, err := r.brokerState()
@@ -1255,7 +1283,7 @@ func (w *worker) run(bi int, beh []map[string]any, res *vh.Result, maxResub int)
 			msub := vh.Map(st["sub"])
 			posValid := r.mode == "eph" || (vh.Int(msub["ep"]) == vh.Int(st["epoch"]) && vh.Int(msub["pos"]) == vh.Int(st["top"]))
 			if !posValid {
-				continue // the periodic position check ends such a subscription (assumption, see fam/mapsub.py)
+				continue // not final: the periodic position check (action PosCheck) ends such a subscription
 			}
 			bs, err := r.brokerState()
 			if err != nil {
